@@ -60,6 +60,8 @@ func (my *cacheImpl) startJobGoroutines() {
 				case <-gcTicker.C:
 					my.removeRotted()
 				case <-closeChan:
+					// Cache已经被关闭/回收了: 把已经排队的job执行完再退出, 保证已经交出去的Future都会完成
+					my.runQueuedJobs()
 					return
 				}
 			}
@@ -198,6 +200,30 @@ func (my *cacheImpl) sendJob(job cacheJob) {
 	select {
 	case my.jobChan <- job:
 	case <-my.closeChan: // closeChan在NewCache()中已经初始化了
+		// 已经没有goroutine消费jobChan了, 直接在调用方执行loader, 否则这个future永远不会完成
+		var value, err = job.loader(job.key)
+		job.future.setValue(value, err)
+		return
+	}
+
+	// 如果刚好在入队的同时Cache被关闭了, 消费jobChan的goroutine可能已经全部退出, 这里兜底执行一遍
+	select {
+	case <-my.closeChan:
+		my.runQueuedJobs()
+	default:
+	}
+}
+
+// runQueuedJobs 执行所有已经排队的job, 不阻塞
+func (my *cacheImpl) runQueuedJobs() {
+	for {
+		select {
+		case job := <-my.jobChan:
+			var value, err = job.loader(job.key)
+			job.future.setValue(value, err)
+		default:
+			return
+		}
 	}
 }
 
